@@ -396,6 +396,21 @@ func (ev *Eval) object(obj types.Object) *Val {
 	case *types.Var:
 		name := o.Pkg().Path() + "." + o.Name()
 		return f.globalByName(name, o.Type())
+	case *types.Func:
+		// a package-level function as a value: its identity constant (the
+		// same one the executor uses for the function constant)
+		if o.Pkg() != nil {
+			if sp := f.eng.ssaPkgs[o.Pkg().Path()]; sp != nil {
+				if fn := sp.Func(o.Name()); fn != nil {
+					id := sym("fnval:" + fn.String())
+					if !f.sc.declared[id] {
+						f.sc.declare(id, "Int")
+						f.sc.assert(cmp("<", id, "0"))
+					}
+					return &Val{K: KFunc, Ty: o.Type(), Fn: &Closure{Fn: fn}, T: id}
+				}
+			}
+		}
 	}
 	ev.fail("unsupported object %s", obj)
 	return vInt("0", nil)
